@@ -199,6 +199,17 @@ class L2Domain:
         if se is not None and (outcome if se[2] else not outcome):
             # the path continues under the assumption that two different symbols denote the same number (the analysis does not identify them afterwards)
             self.ctx.event('size-equality-assumed', left=se[0], right=se[1])
+        cm = getattr(v, 'cmp', None)
+        if cm is not None and all(isinstance(x_, Size) or (isinstance(x_, int) and not isinstance(x_, bool)) for x_ in cm[1:]):
+            # an ordering test between sizes whose outcome was chosen: the path continues with the corresponding fact (lo <= hi)
+            a_, b_ = Size.of(cm[1], self.ctx.atoms), Size.of(cm[2], self.ctx.atoms)
+            lo_hi = {('Lt', True): (a_ + 1, b_), ('Lt', False): (b_, a_), ('Gt', True): (b_ + 1, a_), ('Gt', False): (a_, b_),
+                     ('LtE', True): (a_, b_), ('LtE', False): (b_ + 1, a_), ('GtE', True): (b_, a_), ('GtE', False): (a_ + 1, b_)}.get((cm[0], bool(outcome)))
+            if lo_hi is not None:
+                lo, hi = Size.of(lo_hi[0], self.ctx.atoms), Size.of(lo_hi[1], self.ctx.atoms)
+                at = lo.single_atom()
+                if at is not None:
+                    self.ctx.atoms.upper.setdefault(at, []).append(hi)
         self.ctx.event('branch', outcome=outcome, decided=False, expr=v.tags.get('expr') if isinstance(v, Arr) else None, value=v, test=node)
 
     def truth(self, v):
